@@ -146,6 +146,7 @@ func c16Swagger(c *rt.C, doc *jVal, client *client_j5pb.API, id string, det func
 type xcMethod struct {
 	Name, Verb, Path string
 	Req, Res         []string
+	ReqRaw           []string // request properties as declared: query parameters are listed without expanding flattened objects
 	HasRes           bool
 	PathParams       []string
 	reqTypes         map[string]*jT
@@ -165,6 +166,23 @@ func clientPath(base, p string) string {
 	return full
 }
 
+// xcBundle: the bundle whose services are being modelled (flattened references are resolved in it)
+var xcBundle *jBundle
+
+func (b *jBundle) declByFull(full string) *jDecl {
+	if b == nil {
+		return nil
+	}
+	for _, f := range b.Files {
+		for _, e := range f.Elems {
+			if e.Decl != nil && f.Pkg+"."+e.Decl.Name == full {
+				return e.Decl
+			}
+		}
+	}
+	return nil
+}
+
 func xcOfService(s *jService, name, base string) *xcService {
 	out := &xcService{Name: name}
 	for _, m := range s.Methods {
@@ -174,14 +192,29 @@ func xcOfService(s *jService, name, base string) *xcService {
 				xm.PathParams = append(xm.PathParams, part[1:])
 			}
 		}
+		// a flattened object stands for its members (the client API describes the JSON)
+		var expand func(fs []*jF, names *[]string, types map[string]*jT)
+		expand = func(fs []*jF, names *[]string, types map[string]*jT) {
+			for _, f := range fs {
+				if f.T != nil && f.T.Flatten && f.T.Kind == kObject {
+					if f.T.Inline != nil {
+						expand(f.T.Inline.Fields, names, types)
+						continue
+					}
+					if d := xcBundle.declByFull(f.T.RefFull); d != nil {
+						expand(d.Fields, names, types)
+						continue
+					}
+				}
+				*names = append(*names, f.Name)
+				types[f.Name] = f.T
+			}
+		}
+		expand(m.Req, &xm.Req, xm.reqTypes)
 		for _, f := range m.Req {
-			xm.Req = append(xm.Req, f.Name)
-			xm.reqTypes[f.Name] = f.T
+			xm.ReqRaw = append(xm.ReqRaw, f.Name)
 		}
-		for _, f := range m.Res {
-			xm.Res = append(xm.Res, f.Name)
-			xm.resTypes[f.Name] = f.T
-		}
+		expand(m.Res, &xm.Res, xm.resTypes)
 		out.Methods = append(out.Methods, xm)
 	}
 	return out
@@ -270,7 +303,11 @@ func c16Method(c *rt.C, want *xcMethod, got *client_j5pb.Method, where, id strin
 		inPath[p] = true
 	}
 	var rest []string
-	for _, n := range want.Req {
+	reqNames := want.Req
+	if want.Verb == "GET" {
+		reqNames = want.ReqRaw
+	}
+	for _, n := range reqNames {
 		if !inPath[n] {
 			rest = append(rest, n)
 		}
@@ -460,6 +497,7 @@ func c16Declared(c *rt.C, b *jBundle, plans []*jEntityPlan, client *client_j5pb.
 	for _, p := range client.Packages {
 		byPkg[p.Name] = p
 	}
+	xcBundle = b
 	pkgs := map[string]bool{}
 	for _, f := range b.Files {
 		pkgs[f.Pkg] = true
